@@ -68,6 +68,13 @@ def run(ctx, name, records, backends=("py", "shim"), nproc=None, chunk=400, limi
             raise MachineryError("replay worker failed: %s" % n)
         ctx.evaluations += n
         for i, m in out:
+            if m.get("advisory"):
+                # behaviour outside the statement of the property: recorded, never a verdict
+                adv = ctx.notes.setdefault("advisory_observations", [])
+                if len(adv) < 5:
+                    adv.append(m["text"][:300])
+                ctx.notes["advisory_count"] = ctx.notes.get("advisory_count", 0) + 1
+                continue
             if i in reported:
                 continue          # one report per record
             reported.add(i)
@@ -95,6 +102,9 @@ def run_one(ctx, name, rec):
             k, mm = CHECKERS[name](rec, be)
         ctx.evaluations += k
         for m in mm:
+            if m.get("advisory"):
+                print("advisory: " + m["text"][:300])
+                continue
             bad += 1
             r = dict(rec)
             r["_backend"] = be
